@@ -153,13 +153,28 @@ def _is_str_of(fn: FuncInfo, k: ast.expr, shown: ast.expr) -> bool:
     init = fn.cls.methods.get("__init__")
     if init is None:
         return False
+    # fields that are a constructor parameter stored as it is: self.index <- index
+    origin = {}
+    for n in ast.walk(init.node):
+        if isinstance(n, ast.Assign) and isinstance(n.value, ast.Name):
+            for t in n.targets:
+                tp = path_of(t)
+                if tp and tp.startswith("self."):
+                    origin[tp] = n.value.id
+
+    def param_of(e: ast.expr) -> Optional[str]:
+        if isinstance(e, ast.Name):
+            return e.id
+        return origin.get(path_of(e) or "")
+
     for n in ast.walk(init.node):
         if isinstance(n, ast.Assign) and any(path_of(t) == f"self.{k.attr}" for t in n.targets):
             v = n.value
-            if isinstance(v, ast.Call) and callee_name(v) == "str" and v.args and ast.unparse(v.args[0]) == ast.unparse(shown):
+            if isinstance(v, ast.Call) and callee_name(v) == "str" and len(v.args) == 1 and param_of(v.args[0]) is not None \
+                    and param_of(v.args[0]) == origin.get(path_of(shown) or ""):
                 # the shown field must be an int parameter
                 for a in init.node.args.args + init.node.args.kwonlyargs:
-                    if isinstance(shown, ast.Attribute) and a.arg == shown.attr and a.annotation is not None and ast.unparse(a.annotation) == "int":
+                    if a.arg == param_of(v.args[0]) and a.annotation is not None and ast.unparse(a.annotation) == "int":
                         return True
     return False
 
